@@ -432,6 +432,9 @@ class CommitHandler(processor.CommitHandler):
         email = self._utf8_decode(f"{section} email", email)
 
         if email:
+            if not name:
+                # "<email>" on its own: no separating blank, so that the string round-trips
+                return f"<{email}>"
             return f"{name} <{email}>"
         else:
             return name
@@ -1131,6 +1134,10 @@ class CommitHandler(processor.CommitHandler):
 
     def record_rename(self, old_path, new_path, file_id, old_ie):
         """Record a rename."""
+        # The old path is vacated: whatever appears there later in this commit
+        # (a new file, or a directory created for the new path itself) must not
+        # be given the renamed entry's file id.
+        self._paths_deleted_this_commit.add(old_path)
         new_basename, new_parent_id = self._ensure_directory(
             new_path, self.basis_inventory
         )
